@@ -139,7 +139,14 @@ func (x *extState) verifyReturned(c *checker, cl *call, e *sim.Ev) {
 func (x *extState) nemesisExt(c *checker, e *sim.Ev) {
 	switch e.K {
 	case "m.lease.cut":
-		x.leaseCuts = append(x.leaseCuts, &leaseCut{key: instKey{e.S, e.Ep}, t: e.T, seq: e.Seq, leaseMs: int64(e.A), shape: e.X})
+		lc := &leaseCut{key: instKey{e.S, e.Ep}, t: e.T, seq: e.Seq, leaseMs: int64(e.A), shape: e.X}
+		for i := len(c.leadLog) - 1; i >= 0; i-- {
+			if l := c.leadLog[i]; l.key == lc.key && !l.ended {
+				lc.rec = l
+				break
+			}
+		}
+		x.leaseCuts = append(x.leaseCuts, lc)
 		c.cov("lease-cut:" + e.X)
 	case "m.heal", "m.tail.begin":
 		for _, lc := range x.leaseCuts {
@@ -219,8 +226,16 @@ func (x *extState) finishLease(c *checker) {
 			continue
 		}
 		bound := 2 * lc.leaseMs * 1e6
-		s := c.server(lc.key.s)
-		_ = s
+		if lc.rec != nil {
+			// the lease check exists only once the leader loop runs (see leaderRec.active)
+			if !lc.rec.active {
+				c.cov("lease-cut-before-leader-loop")
+				continue
+			}
+			if lc.rec.activeT > lc.t {
+				lc.t = lc.rec.activeT
+			}
+		}
 		if lc.down {
 			d := lc.downT - lc.t
 			c.lat("lease-stepdown-ms", d/1e6)
@@ -365,7 +380,17 @@ func (x *extState) leaderEnded(c *checker, l *leaderRec, t int64, how string) {
 	if !l.lost {
 		return
 	}
-	d := t - l.lostAt
+	if !l.active {
+		// still delivering the leadership notification to a slow NotifyCh consumer
+		c.cov("majority-loss-before-leader-loop")
+		l.lost = false
+		return
+	}
+	from := l.lostAt
+	if l.activeT > from {
+		from = l.activeT
+	}
+	d := t - from
 	bound := 2 * c.leaseMs * 1e6
 	c.cov("majority-loss-timed")
 	c.lat("majority-loss-to-end-ms", d/1e6)
